@@ -107,11 +107,11 @@ fn scenario(rng: &mut Rng, append_mode: bool, events: &Events, problems: &mut Ve
     } else {
         Arc::new(FileAppender::builder().append(append_mode).encoder(Box::new(ShapeEncoder { events: events.clone() })).build(&path).unwrap())
     };
-    // the first scenario of a batch is one long lifetime: three threads, 120 records each
+    // the first scenario of a batch is one long lifetime: three threads, 60 records each
     let long = run_no == 0;
     let nthreads = if long { 3 } else { 1 + rng.below(3) };
     let shapes: Vec<Vec<u64>> = vec![vec![], vec![0], vec![1], vec![3], vec![4], vec![5], vec![3, 3], vec![1, 4], vec![2, 2, 1], vec![4, 4], vec![1, 0, 3], vec![7]];
-    let plans: Vec<Vec<Vec<u64>>> = (0..nthreads).map(|_| (0..if long { 120 } else { 1 + rng.below(3) }).map(|_| rng.pick(&shapes).clone()).collect()).collect();
+    let plans: Vec<Vec<Vec<u64>>> = (0..nthreads).map(|_| (0..if long { 60 } else { 1 + rng.below(3) }).map(|_| rng.pick(&shapes).clone()).collect()).collect();
     let amp_seed = rng.next();
     // hook: events under the lock + race amplifier
     let ev = events.clone();
